@@ -106,8 +106,38 @@ def check_zip_lengths(case):
     return 'accepted'
 
 
+GROW_TOPS = ['plain', 'map', 'concat_self', 'concat_other', 'tile3', 'batch2', 'map_batch_map']
+
+
+def check_growing_list(case):
+    """Stages whose length follows their input, above a raw ListDataset over a list the caller appends to: after
+    every append, len() still equals what iteration yields and ds[-1] is the last iterated example."""
+    from lazy_dataset import core
+    top, n, warm = case['top'], case['n'], case['warm']
+    lst = [('s', i) for i in range(n)]
+    raw = core.ListDataset(lst)
+    other = core.ListDataset([('o', 0)])
+    ds = {'plain': lambda: raw, 'map': lambda: raw.map(lambda x: x), 'concat_self': lambda: raw.concatenate(raw),
+          'concat_other': lambda: raw.concatenate(other), 'tile3': lambda: raw.tile(3), 'batch2': lambda: raw.batch(2),
+          'map_batch_map': lambda: raw.map(lambda x: x).batch(2).map(lambda b: b)}[top]()
+    for step in range(3):
+        if step or warm:
+            got = list(ds)
+            desc = f'{case} after {step} append(s): iteration yields {len(got)} examples'
+            if len(ds) != len(got):
+                raise Violation(f'len-wrong|growing-{top}', f'{desc}, len() == {len(ds)}')
+            if got and ds[-1] != got[-1]:
+                raise Violation(f'index-value|growing-{top}', f'{desc}; ds[-1] == {ds[-1]!r}, last iterated {got[-1]!r}')
+            if got and ds[len(got) - 1] != got[-1]:
+                raise Violation(f'index-value|growing-{top}', f'{desc}; ds[{len(got) - 1}] == {ds[len(got) - 1]!r}')
+        lst.append(('s', 'new', step))
+
+
 def replay(case):
     progcheck.setup_process()
+    if 'top' in case and 'warm' in case:
+        check_growing_list(case)
+        return
     if 'partner' in case:
         check_zip_lengths(case)
         return
@@ -136,5 +166,17 @@ def run_shard(tier, idx, nshards, rec, known):
                             oz.violation = (case, v.sig, v.detail)
                             return [out, oz]
                         rec.case(case, n1 != n2, ['zip-lengths', 'zip:' + res, 'partner:' + kind], size=n1 + n2)
+        for top in GROW_TOPS:
+            for n in (0, 1, 2, 3):
+                for warm in (True, False):
+                    case = {'top': top, 'n': n, 'warm': warm}
+                    try:
+                        check_growing_list(case)
+                    except Violation as v:
+                        if known.match(v.sig):
+                            continue
+                        oz.violation = (case, v.sig, v.detail)
+                        return [out, oz]
+                    rec.case(case, n >= 1, ['growing-list', 'top:' + top], size=n)
     # bounded-exhaustive part: every chain of <= ENUM_DEPTH[tier] stage templates over every small source
     return [out, progcheck.run_enum(lambda node: check_program(node, rec), rec, known, ENUM_DEPTH[tier], idx, nshards)]
